@@ -99,6 +99,7 @@ Section Final.
       + intros Hn. contradiction.
       + intros Hn. contradiction.
     - intros t f e Ht x Hx. rewrite Hb in Hx. destruct Hx.
+    - intros t f e Ht Hn. destruct (Hp t _ Ht) as [Hi|(s & Hd & Hpin & Hneed)]; [discriminate|congruence].
   Qed.
 
   Theorem final_J : exists rest, J p (schedule p) rest.
@@ -187,6 +188,12 @@ Section Final.
         destruct (X3 y Hy) as [Q|[Q1 Q2]]; [|lia].
         exists y. split; [eapply ext_in; eassumption|]. split; [exact K1|]. split; [exact K2|now apply G2].
   Qed.
+
+  (* C03 (slot granularity): a placed task holds exactly t_need whole-team blocks in the final ledger *)
+  Theorem exact_slots t f e : leaf_dates final t = Some (f, e) -> t_need (task_of p t) <> 0 ->
+    exists ss, length ss = t_need (task_of p t) /\
+               filter (fun x => Nat.eqb (b_task x) t) (bookings final) = concat (map (block p t) ss).
+  Proof. intros Ht Hn. destruct final_J as [rest HJ]. eapply (j_blocks _ _ _ HJ); eassumption. Qed.
 
   (* C10: a container is scheduled exactly when all leaves below it are; dates = min start / max end *)
   Lemma span_spec st : forall ls, ls <> [] ->
